@@ -296,7 +296,7 @@ var StructTypes = []reflect.Type{
 	T(CN1{}), T(CN2{}), T(NMapHolder{}),
 	T(ManyF{}), T(ManyL{}),
 	T(Node{}), T(FNode{}), T(Ping{}), T(Pong{}), T(ENode{}), T(DeepNil{}),
-	T(MapAndLists{}), T(Wrap{}), T(WrapList{}), T(PtrTime{}), T(Named{}), T(SelfAny{}), T(SelfAnyList{}), T(PtrConts{}), T(MutA{}), T(MutB{}), T(MpKeyStruct{}), T(MutGraph{}), T(NonASCII{}), T(RecConts{}), T(AmpTop{}), T(AmpN{}), T(FloatMix{}), T(Forest{}), T(CaseTwins{}), T(Bags{}), T(PtrNamed{}), T(NonASCIIFirst{}), T(IntMix{}), T(Empty{}), T(NumMaps{}), T(BaseEnt{}), T(PlainEnt{}), T(AccountEnt{}), T(PtrBaseEnt{}), T(Ents{}), T(PtrAccountEnt{}), T(Ents2{}), T(Time{}), T(Location{}), T(Event{}), T(NamedLists{}), T(StrMix{}), T(TimeMix{}), T(Color{}), T(Pair{}), T(Envelope{}), T(Empty2{}), T(Markers{}), T(UserID{}), T(UserId{}), T(CaseClasses{}), T(Block{}), T(Coded{}),
+	T(MapAndLists{}), T(Wrap{}), T(WrapList{}), T(PtrTime{}), T(Named{}), T(SelfAny{}), T(SelfAnyList{}), T(PtrConts{}), T(MutA{}), T(MutB{}), T(MpKeyStruct{}), T(MutGraph{}), T(NonASCII{}), T(RecConts{}), T(AmpTop{}), T(AmpN{}), T(FloatMix{}), T(Forest{}), T(CaseTwins{}), T(Bags{}), T(PtrNamed{}), T(PtrNamedOrder{}), T(PtrNamedPair{}), T(NonASCIIFirst{}), T(IntMix{}), T(Empty{}), T(NumMaps{}), T(BaseEnt{}), T(PlainEnt{}), T(AccountEnt{}), T(PtrBaseEnt{}), T(Ents{}), T(PtrAccountEnt{}), T(Ents2{}), T(Time{}), T(Location{}), T(Event{}), T(NamedLists{}), T(StrMix{}), T(TimeMix{}), T(Color{}), T(Pair{}), T(Envelope{}), T(Empty2{}), T(Markers{}), T(UserID{}), T(UserId{}), T(CaseClasses{}), T(Block{}), T(Coded{}),
 }
 
 // TypeByName finds a zoo struct type.
@@ -744,6 +744,20 @@ type NumMaps struct {
 type PtrNamed struct{ A int32 }
 
 func (*PtrNamed) HessianCodecName() string { return "com.example.PtrNamed" }
+
+// PtrNamedOrder embeds the type whose name is declared on the pointer receiver: whatever the library makes of such a
+// declaration, the promoted method is not the outer type's own name. PtrNamedPair holds both side by side.
+type PtrNamedOrder struct {
+	PtrNamed
+	X int32
+}
+type PtrNamedPair struct {
+	O  *PtrNamedOrder
+	B  PtrNamed
+	P  *PtrNamed
+	L  []interface{}
+	Os []PtrNamedOrder
+}
 
 // CaseTwins: exported fields that differ only in the case of a later letter (their wire names differ too:
 // only the first letter is lower-cased).
